@@ -198,6 +198,49 @@ class Ctx:
         return [f for f in self.findings if f.known is not None]
 
 
+KIND_LEGEND = {
+    "structural": "decided on the shape of the code: CFG dominance / must-pass-through, def-use, who-may-write, call graph, "
+                  "table agreement; no repository code is evaluated",
+    "finite-exhaustive": "a pure function, guard or transition table of the repository is evaluated by the checker's own whitelisted "
+                         "AST evaluator over its ENTIRE finite (abstract) input domain (all 256 byte values, every truth assignment "
+                         "of the guards, every state x input pair): a for-all verdict over that domain",
+    "bounded": "repository source is interpreted by the checker's own AST interpreter on an enumerated but BOUNDED set of inputs or "
+               "histories (every split of short streams, scenario lists, small grids): a verdict about those inputs only, "
+               "not a for-all argument",
+    "unclassified": "the module does not declare the kind of this rule",
+}
+
+
+def rule_kind(module, rule: str) -> str:
+    """Kind of a rule according to the module's RULE_KINDS = {rule prefix: kind} (longest prefix wins);
+    included rules "Cxx:rule" are looked up in the other property's module."""
+    if ":" in rule and rule.split(":", 1)[0][:1] == "C" and rule.split(":", 1)[0][1:].isdigit():
+        other, rest = rule.split(":", 1)
+        try:
+            import importlib
+            return rule_kind(importlib.import_module(f"sa.props.{other.lower()}"), rest)
+        except Exception:
+            return "unclassified"
+    table = getattr(module, "RULE_KINDS", None) or {}
+    best = None
+    for pref, kind in table.items():
+        if rule.startswith(pref) and (best is None or len(pref) > len(best[0])):
+            best = (pref, kind)
+    if best is None and "*" in table:
+        return table["*"]
+    return best[1] if best else "unclassified"
+
+
+def kinds_of(ctx, module) -> dict:
+    out: Dict[str, dict] = {}
+    for o in ctx.obligations:
+        k = rule_kind(module, o["rule"])
+        d = out.setdefault(k, {"obligations": 0, "rules": set()})
+        d["obligations"] += 1
+        d["rules"].add(o["rule"])
+    return {k: {"obligations": v["obligations"], "rules": len(v["rules"])} for k, v in sorted(out.items())}
+
+
 def write_evidence(ctx: Ctx, module, wall: float, seed: int, selftest: Optional[dict] = None, error: Optional[str] = None) -> str:
     os.makedirs(EVIDENCE_DIR, exist_ok=True)
     obligations = len(ctx.obligations)
@@ -233,6 +276,8 @@ def write_evidence(ctx: Ctx, module, wall: float, seed: int, selftest: Optional[
         "checker_cmd": f"/venv/bin/python sa/check.py --property {ctx.prop} --tier {ctx.tier}",
         "trusted_base": ["CPython ast parser", "sa/ engine (CFG, dominators, effects)", "frozen instance tables in sa/props"],
     }
+    cov["obligations_by_kind"] = kinds_of(ctx, module)
+    cov["kinds_legend"] = KIND_LEGEND
     cov.update(ctx.extra)
     if selftest is not None:
         cov["selftest"] = selftest
